@@ -215,8 +215,11 @@ def finish(prop, tier, seed, obligations, meta, t0, confirm=None):
     ev = {"property_id": prop, "tier": tier, "seed": seed, "level": level, "coverage": cov,
           "assumptions": meta.get("assumptions", []), "wall_s": round(time.time() - t0, 2),
           "violations": violations}
-    os.makedirs(os.path.join(VERIF, "evidence"), exist_ok=True)
-    with open(os.path.join(VERIF, "evidence", prop + ".json"), "w") as f:
+    # development tools (lib/mutate.py, lib/seedtest.py) redirect evidence so that committed evidence always
+    # comes from runs against /repo itself
+    evdir = os.environ.get("VERIF_EVIDENCE_DIR") or os.path.join(VERIF, "evidence")
+    os.makedirs(evdir, exist_ok=True)
+    with open(os.path.join(evdir, prop + ".json"), "w") as f:
         json.dump(ev, f, indent=1, default=str)
     for ln in lines:
         print(ln)
